@@ -4,6 +4,7 @@ import (
 	"go/ast"
 	"go/token"
 	"go/types"
+	"sort"
 	"strings"
 
 	"jetverif/an"
@@ -629,4 +630,740 @@ func devModeOnlyLookup(c *an.Ctx, rule string) {
 		})
 	}
 	c.Expect(rule, "reads of Set.developmentMode", n, 2)
+}
+
+// c02deferReceiver (C02.drain receiver-bound): the receiver of a deferred method call is evaluated when the defer
+// statement runs.  `defer t.recover(&err)` registered before `t = &Template{…}` hands the handler a nil template: the
+// error still comes back, but the handler cannot reach the lexer it is supposed to drain and the lexer goroutine stays
+// blocked for ever.  So wherever a method is deferred on a local pointer variable (a named result, a `var`), that
+// variable has been assigned on every path to the defer statement.
+func c02deferReceiver(c *an.Ctx) {
+	p := c.P
+	n := 0
+	for _, f := range p.Units() {
+		if f.Pkg != p.Jet || f.Body == nil {
+			continue
+		}
+		info := f.Info()
+		var sites []*ast.DeferStmt
+		an.InspectOwn(f, func(nd ast.Node) bool {
+			d, ok := nd.(*ast.DeferStmt)
+			if !ok {
+				return true
+			}
+			sel, ok := an.Unparen(d.Call.Fun).(*ast.SelectorExpr)
+			if !ok {
+				return true
+			}
+			id, ok := an.Unparen(sel.X).(*ast.Ident)
+			if !ok {
+				return true
+			}
+			v, ok := an.ObjOf(info, id).(*types.Var)
+			if !ok || v.IsField() || v.Pkg() == nil || v.Parent() == v.Pkg().Scope() {
+				return true
+			}
+			if _, isPtr := v.Type().Underlying().(*types.Pointer); !isPtr {
+				return true
+			}
+			if _, isParam := an.IsParam(f, v); isParam {
+				return true
+			}
+			if s := info.Selections[sel]; s == nil || s.Kind() != types.MethodVal {
+				return true
+			}
+			sites = append(sites, d)
+			return true
+		})
+		if len(sites) == 0 {
+			continue
+		}
+		c.FnsAnalysed[f.Name] = true
+		bad := map[*ast.DeferStmt]bool{}
+		seen := map[*ast.DeferStmt]bool{}
+		x := p.NewExplorer(f, an.Hooks{
+			PreAssign: func(x *an.Explorer, lhs, rhs ast.Expr, stmt ast.Node, st *an.State) {
+				if id, ok := an.Unparen(lhs).(*ast.Ident); ok && rhs != nil {
+					if k, ok := x.Key(id); ok {
+						if an.Str(an.Unparen(rhs)) == "nil" {
+							st.Set("asg:"+k, "")
+						} else {
+							st.Set("asg:"+k, "1")
+						}
+					}
+				}
+			},
+			Defer: func(x *an.Explorer, d *ast.DeferStmt, st *an.State) {
+				for _, s := range sites {
+					if s != d {
+						continue
+					}
+					seen[d] = true
+					recv := an.Unparen(d.Call.Fun).(*ast.SelectorExpr).X
+					if k, ok := x.Key(recv); !ok || st.Get("asg:"+k) == "" {
+						bad[d] = true
+					}
+				}
+			},
+		})
+		x.Run(nil)
+		c.States += x.Visited
+		for i, d := range sites {
+			n++
+			key := f.Name + "/deferred-receiver"
+			if i > 0 {
+				key += "#" + itoa(i+1)
+			}
+			switch {
+			case x.Undecided != "":
+				c.Undecided("C02.drain", key, d.Pos(), "%s", x.Undecided)
+			case bad[d] || !seen[d]:
+				c.Bad("C02.drain", key, d.Pos(), nil, "%s defers %s on a path where %s has not been assigned yet: the receiver is evaluated at the defer statement, the method runs on a nil receiver and cannot release what the function acquires afterwards (the lexer goroutine of a failed parse is never drained)",
+					f.Name, an.Str(d.Call.Fun), an.Str(an.Unparen(d.Call.Fun).(*ast.SelectorExpr).X))
+			default:
+				c.OK("C02.drain", key, d.Pos(), "the receiver of the deferred method call is assigned before the defer statement on every path")
+			}
+		}
+	}
+	c.Expect("C02.drain", "methods deferred on a local pointer variable", n, 1)
+}
+
+// c04resultComputed (C04.kinds result-computed): a binary arithmetic evaluator answers with the value of a Go
+// arithmetic (or concatenation) expression over its two operands.  A path that has evaluated both operands and
+// returns one of them as it came — a shortcut for "adding to an empty string", "multiplying by one" — changes the
+// kind of the result (`"" + 1` is the text "1", not the number) and with it the typing of whatever the result is
+// combined with next.
+func c04resultComputed(c *an.Ctx) {
+	p := c.P
+	n := 0
+	for _, name := range []string{"(*Runtime).evalAdditiveExpression", "(*Runtime).evalMultiplicativeExpression"} {
+		f := c.Fn("C04.kinds", name)
+		if f == nil {
+			continue
+		}
+		info := f.Info()
+		computed := func(e ast.Expr) bool {
+			call, ok := an.Unparen(e).(*ast.CallExpr)
+			if !ok || an.CalleeName(info, call) != "reflect.ValueOf" || len(call.Args) != 1 {
+				return false
+			}
+			b, ok := an.Unparen(call.Args[0]).(*ast.BinaryExpr)
+			if !ok {
+				return false
+			}
+			switch b.Op {
+			case token.ADD, token.SUB, token.MUL, token.QUO, token.REM:
+				return true
+			}
+			return false
+		}
+		bad := token.NoPos
+		var badFacts []string
+		what := ""
+		nRet := 0
+		var opSwitches []*ast.SwitchStmt
+		an.InspectOwn(f, func(nd ast.Node) bool {
+			if sw, ok := nd.(*ast.SwitchStmt); ok && sw.Tag != nil && p.FieldKey(info, sw.Tag) == "item.typ" {
+				hasDefault := false
+				for _, cl := range sw.Body.List {
+					if cl.(*ast.CaseClause).List == nil {
+						hasDefault = true
+					}
+				}
+				if !hasDefault {
+					opSwitches = append(opSwitches, sw)
+				}
+			}
+			return true
+		})
+		x := p.NewExplorer(f, an.Hooks{
+			Call: func(x *an.Explorer, call *ast.CallExpr, st *an.State) {
+				if an.CalleeName(info, call) == "(*jet.Runtime).evalPrimaryExpressionGroup" {
+					st.Add("ops", 1)
+				}
+			},
+			PreAssign: func(x *an.Explorer, lhs, rhs ast.Expr, stmt ast.Node, st *an.State) {
+				if id, ok := an.Unparen(lhs).(*ast.Ident); ok && rhs != nil {
+					if k, ok := x.Key(id); ok {
+						if computed(rhs) {
+							st.Set("comp:"+k, "1")
+						} else {
+							st.Set("comp:"+k, "")
+						}
+					}
+				}
+			},
+			Return: func(x *an.Explorer, ret *ast.ReturnStmt, st *an.State) {
+				if st.Int("ops") < 2 || len(ret.Results) != 1 {
+					return
+				}
+				// a path that took no arm of a default-less switch over the node's operator does not exist: the parser
+				// builds the node only for the operators of its level (C04.ladder)
+				for _, sw := range opSwitches {
+					none := true
+					for _, cl := range sw.Body.List {
+						for _, v := range cl.(*ast.CaseClause).List {
+							if t, known := x.Truth(&ast.BinaryExpr{X: sw.Tag, Op: token.EQL, Y: v}, st); !known || t {
+								none = false
+							}
+						}
+					}
+					if none {
+						return
+					}
+				}
+				nRet++
+				r := ret.Results[0]
+				if computed(r) {
+					return
+				}
+				if k, ok := x.Key(r); ok && st.Get("comp:"+k) != "" {
+					return
+				}
+				if !bad.IsValid() {
+					bad, badFacts, what = ret.Pos(), an.Facts(st), an.Str(r)
+				}
+			},
+		})
+		x.Run(nil)
+		c.States += x.Visited
+		n++
+		key := name + "/result-computed"
+		switch {
+		case x.Undecided != "":
+			c.Undecided("C04.kinds", key, f.Pos(), "%s", x.Undecided)
+		case bad.IsValid():
+			c.Bad("C04.kinds", key, bad, badFacts, "%s returns %s on a path that has evaluated both operands but computed nothing from them: the result is an operand as it came, not the value (and kind) of the operation", name, what)
+		case nRet == 0:
+			c.Bad("C04.kinds", key, f.Pos(), nil, "%s has no return after evaluating both operands", name)
+		default:
+			c.OK("C04.kinds", key, f.Pos(), "every return after both operands were evaluated hands back the value of a Go arithmetic expression")
+		}
+	}
+	c.Expect("C04.kinds", "binary arithmetic evaluators", n, 2)
+}
+
+// c14countChecked (C14.count): evaluateArgs hands back argument values (a nil error) only on paths on which the number
+// of arguments given was compared with the number the function takes — `given != required` or `given < required` is
+// known to be false there.  A shortcut in front of the comparison ("a niladic function needs no arguments evaluated")
+// lets a call with the wrong number of arguments through: the arguments are dropped without an error.
+func c14countChecked(c *an.Ctx) {
+	p := c.P
+	f := c.Fn("C14.count", "(*Runtime).evaluateArgs")
+	if f == nil {
+		return
+	}
+	info := f.Info()
+	// given: a local counted from len(<CallArgs>.Exprs); required: a local taken from (reflect.Type).NumIn()
+	var given, required *ast.Ident
+	an.InspectOwn(f, func(n ast.Node) bool {
+		an.Assigns(n, func(lhs, rhs ast.Expr, _ token.Token) {
+			id, ok := an.Unparen(lhs).(*ast.Ident)
+			if !ok || rhs == nil {
+				return
+			}
+			call := callOf(rhs)
+			if call == nil {
+				return
+			}
+			switch an.CalleeName(info, call) {
+			case "builtin.len":
+				if len(call.Args) == 1 && p.FieldKey(info, call.Args[0]) == "CallArgs.Exprs" && given == nil {
+					given = id
+				}
+			case "(reflect.Type).NumIn":
+				if required == nil {
+					required = id
+				}
+			}
+		})
+		return true
+	})
+	if given == nil || required == nil {
+		c.Anchor("C14.count", "locals holding the number of arguments given and required in evaluateArgs")
+		return
+	}
+	bad := token.NoPos
+	var badFacts []string
+	nOK := 0
+	x := p.NewExplorer(f, an.Hooks{Return: func(x *an.Explorer, ret *ast.ReturnStmt, st *an.State) {
+		if len(ret.Results) != 2 {
+			return
+		}
+		if tv, ok := info.Types[ret.Results[1]]; !ok || !tv.IsNil() {
+			return
+		}
+		if t, known := x.Truth(&ast.BinaryExpr{X: given, Op: token.NEQ, Y: required}, st); known && !t {
+			nOK++
+			return
+		}
+		if t, known := x.Truth(&ast.BinaryExpr{X: given, Op: token.LSS, Y: required}, st); known && !t {
+			nOK++
+			return
+		}
+		if !bad.IsValid() {
+			bad, badFacts = ret.Pos(), an.Facts(st)
+		}
+	}})
+	x.Run(nil)
+	c.States += x.Visited
+	key := "(*Runtime).evaluateArgs/count-checked"
+	switch {
+	case x.Undecided != "":
+		c.Undecided("C14.count", key, f.Pos(), "%s", x.Undecided)
+	case bad.IsValid():
+		c.Bad("C14.count", key, bad, badFacts, "evaluateArgs returns argument values without an error on a path where the number of arguments given (%s) was not compared with the number required (%s): a call with too many or too few arguments goes through, its arguments dropped", given.Name, required.Name)
+	case nOK == 0:
+		c.Bad("C14.count", key, f.Pos(), nil, "evaluateArgs has no successful return")
+	default:
+		c.OK("C14.count", key, f.Pos(), "every successful return lies behind the comparison of the arguments given with the arguments required")
+	}
+}
+
+// parseIntoPerArgument (C18.args / C14.forms per-argument): ParseInto treats every argument position on its own.
+// A variable that the argument loop assigns and reads but that is declared outside the loop carries what one
+// argument did into the handling of the next (a "stored" flag that is never reset makes every later argument skip
+// the conversions that come after the test) — unless each iteration gives it a fresh value, unconditionally,
+// before anything reads it.
+func parseIntoPerArgument(c *an.Ctx, rule string) {
+	_ = c.P
+	f := c.Fn(rule, "(*Arguments).ParseInto")
+	if f == nil {
+		return
+	}
+	info := f.Info()
+	nLoops := 0
+	an.InspectOwn(f, func(n ast.Node) bool {
+		var body *ast.BlockStmt
+		switch l := n.(type) {
+		case *ast.ForStmt:
+			body = l.Body
+		case *ast.RangeStmt:
+			body = l.Body
+		default:
+			return true
+		}
+		// the argument loop: its body fetches an argument
+		fetches := false
+		ast.Inspect(body, func(m ast.Node) bool {
+			if call, ok := m.(*ast.CallExpr); ok && an.CalleeName(info, call) == "(*jet.Arguments).Get" {
+				fetches = true
+			}
+			return !fetches
+		})
+		if !fetches {
+			return true
+		}
+		nLoops++
+		inBody := func(pos token.Pos) bool { return pos >= body.Pos() && pos < body.End() }
+		assigned := map[types.Object]bool{}
+		ast.Inspect(body, func(m ast.Node) bool {
+			an.Assigns(m, func(lhs, _ ast.Expr, _ token.Token) {
+				if id, ok := an.Unparen(lhs).(*ast.Ident); ok {
+					if o := an.ObjOf(info, id); o != nil && !inBody(o.Pos()) {
+						if _, isVar := o.(*types.Var); isVar {
+							assigned[o] = true
+						}
+					}
+				}
+			})
+			return true
+		})
+		var objs []types.Object
+		for o := range assigned {
+			objs = append(objs, o)
+		}
+		sort.Slice(objs, func(i, j int) bool { return objs[i].Pos() < objs[j].Pos() })
+		key := "(*Arguments).ParseInto/per-argument"
+		bad := false
+		for _, o := range objs {
+			mentions := func(nd ast.Node) bool {
+				found := false
+				ast.Inspect(nd, func(m ast.Node) bool {
+					if id, ok := m.(*ast.Ident); ok && an.ObjOf(info, id) == o {
+						found = true
+					}
+					return !found
+				})
+				return found
+			}
+			// the first top-level statement of the body that mentions it gives it a value that does not depend on it
+			fresh := false
+			for _, s := range body.List {
+				if !mentions(s) {
+					continue
+				}
+				if as, ok := s.(*ast.AssignStmt); ok {
+					onLeft := false
+					for _, l := range as.Lhs {
+						if id, ok := an.Unparen(l).(*ast.Ident); ok && an.ObjOf(info, id) == o {
+							onLeft = true
+						}
+					}
+					onRight := false
+					for _, r := range as.Rhs {
+						if mentions(r) {
+							onRight = true
+						}
+					}
+					fresh = onLeft && !onRight && as.Tok == token.ASSIGN
+				}
+				break
+			}
+			if !fresh && !bad {
+				bad = true
+				c.Bad(rule, key, o.Pos(), nil, "ParseInto's argument loop assigns and reads %q, which is declared outside the loop and not given a fresh value at the start of each iteration: what one argument did decides how the next is handled (later arguments are silently skipped or mis-parsed)", o.Name())
+			}
+		}
+		if !bad {
+			c.OK(rule, key, n.Pos(), "no state is carried from one argument position to the next")
+		}
+		return true
+	})
+	c.Expect(rule, "argument loops in ParseInto", nLoops, 1)
+}
+
+// c12shadow (C12.shadow): two signatures of an error lost to `:=` shadowing.  (a) An error variable that is declared
+// without a value (a named result, `var err error`), read — tested, returned, or handed back by a bare return — and
+// never assigned nor had its address taken anywhere in the function: the test is dead and the function reports
+// success whatever happened (the assignment meant for it went to an inner variable of the same name).  (b) An
+// assignment to an error variable that shadows an outer error variable of the same name and is not read again
+// before its scope ends: the value was meant for the outer variable and is lost.
+func c12shadow(c *an.Ctx) {
+	p := c.P
+	nVars := 0
+	for _, f := range p.Units() {
+		if !p.IsModulePkg(f.Pkg.Types) || f.Body == nil {
+			continue
+		}
+		info := f.Info()
+		isErr := func(t types.Type) bool { return t != nil && t.String() == "error" }
+		// candidates of (a)
+		cands := map[*types.Var]token.Pos{}
+		if f.Sig != nil {
+			for i := 0; i < f.Sig.Results().Len(); i++ {
+				if r := f.Sig.Results().At(i); r.Name() != "" && r.Name() != "_" && isErr(r.Type()) {
+					cands[r] = r.Pos()
+				}
+			}
+		}
+		an.InspectBody(f, func(n ast.Node) bool {
+			if ds, ok := n.(*ast.DeclStmt); ok {
+				if gd, ok := ds.Decl.(*ast.GenDecl); ok && gd.Tok == token.VAR {
+					for _, sp := range gd.Specs {
+						vs := sp.(*ast.ValueSpec)
+						if len(vs.Values) != 0 {
+							continue
+						}
+						for _, name := range vs.Names {
+							if v, ok := info.Defs[name].(*types.Var); ok && isErr(v.Type()) {
+								cands[v] = name.Pos()
+							}
+						}
+					}
+				}
+			}
+			return true
+		})
+		written := map[types.Object]bool{}
+		read := map[types.Object]token.Pos{}
+		lhsIdent := map[*ast.Ident]bool{}
+		bareReturn := token.NoPos
+		ast.Inspect(f.Body, func(n ast.Node) bool {
+			switch s := n.(type) {
+			case *ast.AssignStmt:
+				for _, l := range s.Lhs {
+					if id, ok := an.Unparen(l).(*ast.Ident); ok {
+						lhsIdent[id] = true
+						if o := an.ObjOf(info, id); o != nil {
+							written[o] = true
+						}
+					}
+				}
+			case *ast.RangeStmt:
+				for _, l := range []ast.Expr{s.Key, s.Value} {
+					if id, ok := l.(*ast.Ident); ok && l != nil {
+						lhsIdent[id] = true
+						if o := an.ObjOf(info, id); o != nil {
+							written[o] = true
+						}
+					}
+				}
+			case *ast.UnaryExpr:
+				if s.Op == token.AND {
+					if id, ok := an.Unparen(s.X).(*ast.Ident); ok {
+						if o := an.ObjOf(info, id); o != nil {
+							written[o] = true
+						}
+					}
+				}
+			case *ast.ReturnStmt:
+				if len(s.Results) == 0 && !bareReturn.IsValid() {
+					if lit := p.OwnerFn(s.Pos()); lit == f || lit == nil {
+						bareReturn = s.Pos()
+					}
+				}
+			}
+			return true
+		})
+		ast.Inspect(f.Body, func(n ast.Node) bool {
+			if id, ok := n.(*ast.Ident); ok && !lhsIdent[id] {
+				if o := info.Uses[id]; o != nil {
+					if _, seen := read[o]; !seen {
+						read[o] = id.Pos()
+					}
+				}
+			}
+			return true
+		})
+		var vs []*types.Var
+		for v := range cands {
+			vs = append(vs, v)
+		}
+		sort.Slice(vs, func(i, j int) bool { return vs[i].Pos() < vs[j].Pos() })
+		for _, v := range vs {
+			nVars++
+			if written[v] {
+				continue
+			}
+			at, isRead := read[v]
+			if !isRead && bareReturn.IsValid() && f.Sig != nil {
+				for i := 0; i < f.Sig.Results().Len(); i++ {
+					if f.Sig.Results().At(i) == v {
+						at, isRead = bareReturn, true
+					}
+				}
+			}
+			if isRead {
+				c.Bad("C12.shadow", f.Name+"/never-assigned:"+v.Name(), at, nil, "%s reads its error variable %q (declared without a value) but nothing in the function assigns it: the test is dead and a failure below goes unreported — the assignment meant for it went to a variable of the same name declared by := in an inner scope", f.Name, v.Name())
+			}
+		}
+		// (b) dead store to a shadowing error variable
+		ast.Inspect(f.Body, func(n ast.Node) bool {
+			as, ok := n.(*ast.AssignStmt)
+			if !ok || as.Tok != token.ASSIGN {
+				return true
+			}
+			for _, l := range as.Lhs {
+				id, ok := an.Unparen(l).(*ast.Ident)
+				if !ok {
+					continue
+				}
+				v, ok := an.ObjOf(info, id).(*types.Var)
+				if !ok || !isErr(v.Type()) || v.Parent() == nil {
+					continue
+				}
+				// shadows an outer error variable of the same function?
+				outer := v.Parent().Parent()
+				var shadowed *types.Var
+				for sc := outer; sc != nil && sc != f.Pkg.Types.Scope(); sc = sc.Parent() {
+					if o, ok := sc.Lookup(v.Name()).(*types.Var); ok && o != v && isErr(o.Type()) && o.Pos() < v.Pos() && o.Pos() >= f.Pos() {
+						shadowed = o
+						break
+					}
+				}
+				if shadowed == nil {
+					continue
+				}
+				usedLater := false
+				ast.Inspect(f.Body, func(m ast.Node) bool {
+					if uid, ok := m.(*ast.Ident); ok && uid.Pos() >= as.End() && uid.Pos() < v.Parent().End() && info.Uses[uid] == types.Object(v) && !lhsIdent[uid] {
+						usedLater = true
+					}
+					return !usedLater
+				})
+				if !usedLater {
+					c.Bad("C12.shadow", f.Name+"/lost-assignment:"+v.Name(), as.Pos(), nil, "%s assigns %q, a variable declared by := in an inner scope that shadows the function's error variable of the same name, and does not read it again before that scope ends: the error was meant for the outer variable and is lost", f.Name, v.Name())
+				}
+			}
+			return true
+		})
+	}
+	c.Expect("C12.shadow", "error variables declared without a value (named results, var)", nVars, 5)
+	c.OK("C12.shadow", "summary", p.Jet.Syntax[0].Pos(), "%d error variables declared without a value are all assigned somewhere; no assignment to a shadowing error variable is lost", nVars)
+}
+
+// c20attachedOnce (C20.walk attached-once): the tree the parser builds is a tree.  A node held in a local variable
+// that has been handed to a node constructor as a child is not handed to a constructor again unless the variable was
+// given a new value in between — a variable that outlives one pass of a parsing loop (declared in front of the loop,
+// assigned only on some paths of a pass) otherwise hangs the node of an earlier pass below a second parent, and the
+// visitor reaches it twice.
+func c20attachedOnce(c *an.Ctx) {
+	p := c.P
+	nodeIface := p.Iface("", "Node")
+	if nodeIface == nil {
+		c.Anchor("C20.walk", "interface jet.Node")
+		return
+	}
+	isNodeTyped := func(t types.Type) bool {
+		if t == nil {
+			return false
+		}
+		if _, isIface := t.Underlying().(*types.Interface); isIface {
+			return types.Implements(t, nodeIface)
+		}
+		return types.Implements(t, nodeIface) || types.Implements(types.NewPointer(t), nodeIface)
+	}
+	nFns, nCalls := 0, 0
+	for _, f := range an.SortedFns(p.Parse()) {
+		if f.Pkg != p.Jet || f.Body == nil || f.Decl == nil {
+			continue
+		}
+		info := f.Info()
+		hasCtor := false
+		an.InspectOwn(f, func(n ast.Node) bool {
+			if call, ok := n.(*ast.CallExpr); ok && strings.HasPrefix(an.CalleeName(info, call), "(*jet.Template).new") {
+				hasCtor = true
+			}
+			return !hasCtor
+		})
+		if !hasCtor {
+			continue
+		}
+		nFns++
+		c.FnsAnalysed[f.Name] = true
+		bad := token.NoPos
+		var badFacts []string
+		what := ""
+		x := p.NewExplorer(f, an.Hooks{
+			PreAssign: func(x *an.Explorer, lhs, rhs ast.Expr, stmt ast.Node, st *an.State) {
+				if id, ok := an.Unparen(lhs).(*ast.Ident); ok {
+					if o := an.ObjOf(info, id); o != nil {
+						st.Set("att:"+o.Name()+"@"+itoa(int(o.Pos())), "")
+					}
+				}
+			},
+			Call: func(x *an.Explorer, call *ast.CallExpr, st *an.State) {
+				if !strings.HasPrefix(an.CalleeName(info, call), "(*jet.Template).new") {
+					return
+				}
+				nCalls++
+				for _, a := range call.Args {
+					id, ok := an.Unparen(a).(*ast.Ident)
+					if !ok {
+						continue
+					}
+					v, isVar := an.ObjOf(info, id).(*types.Var)
+					if !isVar || !isNodeTyped(v.Type()) {
+						continue
+					}
+					k := v.Name() + "@" + itoa(int(v.Pos()))
+					if prev := st.Get("att:" + k); prev != "" && !bad.IsValid() {
+						bad, badFacts, what = call.Pos(), an.Facts(st), id.Name+" (already a child of the node built at "+prev+")"
+					}
+					st.Set("att:"+k, p.RelPos(call.Pos()))
+				}
+			},
+		})
+		x.Run(nil)
+		c.States += x.Visited
+		key := f.Name + "/attached-once"
+		switch {
+		case x.Undecided != "":
+			c.Undecided("C20.walk", key, f.Pos(), "%s", x.Undecided)
+		case bad.IsValid():
+			c.Bad("C20.walk", key, bad, badFacts, "%s hands %s to a node constructor again without having given the variable a new value: one node hangs below two parents (the tree is no longer a tree, Walk shows the node to the visitor twice)", f.Name, what)
+		default:
+			c.OK("C20.walk", key, f.Pos(), "no local node is handed to two node constructors without being reassigned in between")
+		}
+	}
+	c.Expect("C20.walk", "parser functions that build nodes from local nodes", nFns, 10)
+	_ = nCalls
+}
+
+// c12fieldInterface (C12.panicval taken-out): reflect refuses to hand out a value obtained from an unexported struct
+// field (Interface() panics with a string, which Execute re-panics).  A function that is handed the fields of a struct
+// one by one — an argument of one of its calls is `<value>.Field(i)`, all fields, exported or not — calls Interface() on
+// such a parameter only where CanInterface() is known to be true for it.
+func c12fieldInterface(c *an.Ctx) {
+	p := c.P
+	eval := p.Eval()
+	tainted := map[*types.Var]token.Pos{}
+	for _, f := range p.Units() {
+		if f.Pkg != p.Jet || f.Body == nil {
+			continue
+		}
+		info := f.Info()
+		an.InspectOwn(f, func(n ast.Node) bool {
+			call, ok := n.(*ast.CallExpr)
+			if !ok {
+				return true
+			}
+			g := p.FnByObj[an.Callee(info, call)]
+			if g == nil || g.Sig == nil || g.Sig.Variadic() || g.Sig.Params().Len() != len(call.Args) {
+				return true
+			}
+			for i, a := range call.Args {
+				if fc := callOf(a); fc != nil && an.CalleeName(info, fc) == "(reflect.Value).Field" {
+					tainted[g.Sig.Params().At(i)] = fc.Pos()
+				}
+			}
+			return true
+		})
+	}
+	n := 0
+	for _, g := range an.SortedFns(eval) {
+		if g.Pkg != p.Jet || g.Body == nil || g.Sig == nil {
+			continue
+		}
+		ginfo := g.Info()
+		var sites []ast.Node
+		var canCalls []*ast.CallExpr
+		an.InspectOwn(g, func(nd ast.Node) bool {
+			call, ok := nd.(*ast.CallExpr)
+			if !ok {
+				return true
+			}
+			switch an.CalleeName(ginfo, call) {
+			case "(reflect.Value).Interface":
+				if id, ok := an.Unparen(an.Receiver(call)).(*ast.Ident); ok {
+					if v, ok := an.ObjOf(ginfo, id).(*types.Var); ok {
+						if _, isTainted := tainted[v]; isTainted {
+							sites = append(sites, call)
+						}
+					}
+				}
+			case "(reflect.Value).CanInterface":
+				canCalls = append(canCalls, call)
+			}
+			return true
+		})
+		if len(sites) == 0 {
+			continue
+		}
+		c.FnsAnalysed[g.Name] = true
+		pr := p.ProbeFn(g, sites, an.Hooks{})
+		c.States += pr.X.Visited
+		for i, s := range sites {
+			n++
+			call := s.(*ast.CallExpr)
+			key := g.Name + "/Interface-of-field"
+			if i > 0 {
+				key += "#" + itoa(i+1)
+			}
+			rk, _ := pr.X.Key(an.Receiver(call))
+			ok := len(pr.At[s]) > 0
+			var facts []string
+			for _, st := range pr.At[s] {
+				guarded := false
+				for _, cc := range canCalls {
+					if k, has := pr.X.Key(an.Receiver(cc)); has && k == rk {
+						if t, known := pr.X.Truth(cc, st); known && t {
+							guarded = true
+						}
+					}
+				}
+				if !guarded {
+					ok = false
+					facts = an.Facts(st)
+				}
+			}
+			if ok {
+				c.OK("C12.panicval", key, call.Pos(), "Interface() is called on a value that may be an unexported struct field only where CanInterface() holds")
+			} else {
+				c.Bad("C12.panicval", key, call.Pos(), facts, "%s calls %s on a parameter that receives struct fields one by one (exported or not) without CanInterface() being known to hold: for an unexported field reflect panics with a string, which Execute re-panics", g.Name, an.Str(call))
+			}
+		}
+	}
+	c.Expect("C12.panicval", "Interface() calls on values that may be unexported struct fields", n, 1)
 }
